@@ -7,6 +7,7 @@ import (
 	"go/constant"
 	"go/token"
 	"go/types"
+	"math/big"
 	"strings"
 
 	"golang.org/x/tools/go/ssa"
@@ -48,6 +49,7 @@ type Frame struct {
 	kind     int // 0 normal call, 1 deferred call (resume RunDefers), 2 closure sequentialised
 	inl      string
 	loopSnap map[*ssa.BasicBlock]*Snapshot
+	curLoop  *Loop
 	pendingDefers []deferred // for kind 1: remaining defers of parent
 }
 
@@ -217,7 +219,7 @@ func (x *Exec) globalPtr(g *ssa.Global) Val {
 func (x *Exec) define(st *State, fr *Frame, v ssa.Value, val Val) {
 	switch val.K {
 	case KInt, KBool, KFloat, KStruct, KSlice, KErr, KOpaque:
-		if val.T != "" && !isLit(val.T) && strings.HasPrefix(val.T, "(") && val.T != "true" && val.T != "false" {
+		if val.T != "" && !isLit(val.T) && strings.HasPrefix(val.T, "(") && val.T != "true" && val.T != "false" && !strings.HasPrefix(val.T, "(mk_slice ") && !isNegLit(val.T) {
 			n := x.freshName(v.Name())
 			sort := x.P.ss.sortOf(v.Type())
 			if val.K == KBool {
@@ -524,7 +526,15 @@ func (x *Exec) simple(st *State, fr *Frame, in ssa.Instruction) {
 		}
 		fr.vals[in] = v
 	case *ssa.ChangeInterface:
-		fr.vals[in] = x.get(st, fr, in.X)
+		v := x.get(st, fr, in.X)
+		if !isErrorType(in.Type()) && v.K == KErr {
+			av := v
+			n := x.freshName("iface")
+			st.declare(n, "Int")
+			st.assume(sx(">=", n, "1"))
+			v = Val{K: KIface, Typ: in.Type(), Dyn: &av, T: n}
+		}
+		fr.vals[in] = v
 	case *ssa.Convert:
 		x.convert(st, fr, in)
 	case *ssa.Extract:
@@ -675,11 +685,11 @@ func (x *Exec) binop(st *State, fr *Frame, in *ssa.BinOp, a, b Val) Val {
 		at := in.X.Type()
 		switch op {
 		case token.ADD:
-			return Val{K: KInt, Typ: t, T: x.wrap(t, sx("+", a.T, b.T))}
+			return x.arith(t, "+", a, b)
 		case token.SUB:
-			return Val{K: KInt, Typ: t, T: x.wrap(t, sx("-", a.T, b.T))}
+			return x.arith(t, "-", a, b)
 		case token.MUL:
-			return Val{K: KInt, Typ: t, T: x.wrap(t, sx("*", a.T, b.T))}
+			return x.arith(t, "*", a, b)
 		case token.QUO:
 			x.check(st, fr, "div0", fmt.Sprintf("divisor-nonzero@%s", x.P.pos(in.Pos())), not(sx("=", b.T, "0")), in.Pos())
 			return Val{K: KInt, Typ: t, T: x.wrap(t, tdiv(a.T, b.T))}
@@ -852,13 +862,14 @@ func (x *Exec) convert(st *State, fr *Frame, in *ssa.Convert) {
 	fk, tk := ss.kindOf(from), ss.kindOf(to)
 	switch {
 	case fk == KInt && tk == KInt:
-		x.define(st, fr, in, Val{K: KInt, Typ: to, T: x.wrap(to, a.T)})
-		// wrap of an in-range value: help the solver when the source range fits
-		fr0, _ := intRange(from)
-		tr0, _ := intRange(to)
-		if fitsIn(fr0, tr0) {
-			fr.vals[in] = Val{K: KInt, Typ: to, T: a.T}
+		alo, ahi, ok1 := a.bounds()
+		tlo, thi, _ := typeBounds(to)
+		if ok1 && alo.Cmp(tlo) >= 0 && ahi.Cmp(thi) <= 0 {
+			// value provably fits: conversion is the identity
+			fr.vals[in] = Val{K: KInt, Typ: to, T: a.T, Lo: alo, Hi: ahi}
+			return
 		}
+		x.define(st, fr, in, Val{K: KInt, Typ: to, T: x.wrap(to, a.T)})
 	case fk == KInt && tk == KFloat:
 		w, _ := isFloat(to)
 		r := x.freshVal(st, "i2f", to)
@@ -934,7 +945,11 @@ func (x *Exec) sliceOp(st *State, fr *Frame, in *ssa.Slice) {
 			hi = x.get(st, fr, in.High).T
 		}
 		x.check(st, fr, "slice", fmt.Sprintf("slice-bounds@%s", x.P.pos(in.Pos())), and(sx("<=", "0", lo), sx("<=", lo, hi), sx("<=", hi, lim)), in.Pos())
-		x.define(st, fr, in, Val{K: KSlice, Typ: in.Type(), T: sx("mk_slice", sArr(a.T), plus(sOff(a.T), lo), sx("-", hi, lo), sx("-", lim, lo))})
+		if in.High != nil && !isStr {
+			// engine limit: the capacity region behind len is not modelled (append reallocation leaves junk there)
+			x.check(st, fr, "slice", fmt.Sprintf("reslice-within-len@%s", x.P.pos(in.Pos())), sx("<=", hi, sLen(a.T)), in.Pos())
+		}
+		x.define(st, fr, in, Val{K: KSlice, Typ: in.Type(), T: sx("mk_slice", sArr(a.T), plus(sOff(a.T), lo), minus(hi, lo), minus(lim, lo))})
 	case KPtr:
 		if a.Ptr == nil || !a.Ptr.IsArr {
 			bail("slice of pointer to non-array")
@@ -946,7 +961,7 @@ func (x *Exec) sliceOp(st *State, fr *Frame, in *ssa.Slice) {
 			hi = x.get(st, fr, in.High).T
 		}
 		x.check(st, fr, "slice", fmt.Sprintf("slice-bounds@%s", x.P.pos(in.Pos())), and(sx("<=", "0", lo), sx("<=", lo, hi), sx("<=", hi, n)), in.Pos())
-		x.define(st, fr, in, Val{K: KSlice, Typ: in.Type(), T: sx("mk_slice", a.Ptr.Root, plus(a.Ptr.Idx, lo), sx("-", hi, lo), sx("-", n, lo))})
+		x.define(st, fr, in, Val{K: KSlice, Typ: in.Type(), T: sx("mk_slice", a.Ptr.Root, plus(a.Ptr.Idx, lo), minus(hi, lo), minus(n, lo))})
 	default:
 		bail("slice of %v", in.X.Type())
 	}
@@ -959,7 +974,10 @@ func (x *Exec) makeInterface(st *State, fr *Frame, in *ssa.MakeInterface) {
 		return
 	}
 	av := a
-	fr.vals[in] = Val{K: KIface, Typ: in.Type(), Dyn: &av}
+	n := x.freshName("iface")
+	st.declare(n, "Int")
+	st.assume(sx(">=", n, "1"))
+	fr.vals[in] = Val{K: KIface, Typ: in.Type(), Dyn: &av, T: n}
 }
 
 // toError converts a concrete error implementation to the Err datatype.
@@ -989,4 +1007,85 @@ func (x *Exec) toError(st *State, a Val, t types.Type) Val {
 	}
 	bail("conversion of %v to error is not modelled", t)
 	return Val{}
+}
+
+func isNegLit(s string) bool {
+	return strings.HasPrefix(s, "(- ") && strings.HasSuffix(s, ")") && isLit(s[3:len(s)-1])
+}
+
+// ---- static integer bounds (used only to drop wrap-around terms that cannot fire)
+
+func bigOf(s string) *big.Int {
+	v, _ := new(big.Int).SetString(s, 10)
+	return v
+}
+
+func typeBounds(t types.Type) (*big.Int, *big.Int, bool) {
+	r, ok := intRange(t)
+	if !ok {
+		return nil, nil, false
+	}
+	return bigOf(r.Lo), bigOf(r.Hi), true
+}
+
+func (v Val) bounds() (*big.Int, *big.Int, bool) {
+	if v.K != KInt {
+		return nil, nil, false
+	}
+	if n, ok := litBig(v.T); ok {
+		return n, n, true
+	}
+	if v.Lo != nil && v.Hi != nil {
+		return v.Lo, v.Hi, true
+	}
+	if v.Typ != nil {
+		return typeBounds(v.Typ)
+	}
+	return nil, nil, false
+}
+
+func litBig(s string) (*big.Int, bool) {
+	if isLit(s) {
+		return bigOf(s), true
+	}
+	if isNegLit(s) {
+		n := bigOf(s[3 : len(s)-1])
+		return n.Neg(n), true
+	}
+	return nil, false
+}
+
+// arith builds the result of a wrapping +,-,* : the wrap is omitted when static bounds show it is the identity.
+func (x *Exec) arith(t types.Type, op string, a, b Val) Val {
+	term := sx(op, a.T, b.T)
+	res := Val{K: KInt, Typ: t}
+	alo, ahi, ok1 := a.bounds()
+	blo, bhi, ok2 := b.bounds()
+	tlo, thi, ok3 := typeBounds(t)
+	if ok1 && ok2 && ok3 {
+		var lo, hi *big.Int
+		switch op {
+		case "+":
+			lo, hi = new(big.Int).Add(alo, blo), new(big.Int).Add(ahi, bhi)
+		case "-":
+			lo, hi = new(big.Int).Sub(alo, bhi), new(big.Int).Sub(ahi, blo)
+		case "*":
+			c := []*big.Int{new(big.Int).Mul(alo, blo), new(big.Int).Mul(alo, bhi), new(big.Int).Mul(ahi, blo), new(big.Int).Mul(ahi, bhi)}
+			lo, hi = c[0], c[0]
+			for _, v := range c[1:] {
+				if v.Cmp(lo) < 0 {
+					lo = v
+				}
+				if v.Cmp(hi) > 0 {
+					hi = v
+				}
+			}
+		}
+		if lo != nil && lo.Cmp(tlo) >= 0 && hi.Cmp(thi) <= 0 {
+			res.T, res.Lo, res.Hi = term, lo, hi
+			return res
+		}
+	}
+	res.T = x.wrap(t, term)
+	return res
 }
